@@ -228,3 +228,65 @@ func VerifC05(nTracks int, pattern string, sizes string, optimize bool, sw bool,
 	vfy.Cover("samples read back")
 	vfy.Observe("seglen", len(segBytes))
 }
+
+// VerifC11Fragmentify splits a segment into shorter fragments and checks conservation.
+func VerifC11Fragmentify(nSamples int) {
+	init, _ := c05Init(1)
+	seg := NewMediaSegment()
+	frag, _ := CreateFragment(1, 1)
+	seg.AddFragment(frag)
+	var want []FullSample
+	t := uint64(vfy.U32("t0"))
+	for k := 0; k < nSamples; k++ {
+		s := c05NewSample(1 + k%2)
+		s.Dur = s.Dur & 0xffff
+		s.DecodeTime = t
+		t += uint64(s.Dur)
+		frag.AddFullSample(s)
+		want = append(want, s)
+	}
+	var sb bytes.Buffer
+	if err := seg.Encode(&sb); err != nil {
+		panic("harness: segment encode")
+	}
+	var ib bytes.Buffer
+	_ = init.Encode(&ib)
+	f, err := DecodeFile(bytes.NewReader(append(ib.Bytes(), sb.Bytes()...)))
+	if err != nil {
+		panic("harness: decode")
+	}
+	trex := f.Init.Moov.Mvex.Trex
+	dur := uint32(vfy.U16("fragdur"))
+	vfy.Assume(dur >= 1)
+	frags, err := f.Segments[0].Fragmentify(1000, trex, dur)
+	vfy.Assert(err == nil, "Fragmentify succeeds")
+	if err != nil {
+		return
+	}
+	got := 0
+	for _, fr := range frags {
+		var fb bytes.Buffer
+		err := fr.Encode(&fb)
+		vfy.Assert(err == nil, "output fragment encodes")
+		if err != nil {
+			return
+		}
+		ff, err := DecodeFile(bytes.NewReader(append(append([]byte{}, ib.Bytes()...), fb.Bytes()...)))
+		vfy.Assert(err == nil, "output fragment decodes")
+		if err != nil {
+			return
+		}
+		fss, err := ff.Segments[0].Fragments[0].GetFullSamples(ff.Init.Moov.Mvex.Trex)
+		vfy.Assert(err == nil, "samples readable")
+		for _, fs := range fss {
+			if got < len(want) {
+				w := want[got]
+				vfy.Assert(bytes.Equal(fs.Data, w.Data) && fs.Dur == w.Dur && fs.Flags == w.Flags &&
+					fs.CompositionTimeOffset == w.CompositionTimeOffset && fs.DecodeTime == w.DecodeTime, "sample conserved, in order")
+			}
+			got++
+		}
+	}
+	vfy.Assert(got == len(want), "same number of samples")
+	vfy.Cover("fragmentify compared")
+}
